@@ -100,7 +100,7 @@ fn run_lock_case(case: &Case) -> (Log, rt::Outcome, u64) {
                     held.fetch_sub(1, std::sync::atomic::Ordering::Relaxed);
                     drop(g);
                 } else {
-                    let (g, pts) = rt::run_alone(|| m.try_lock());
+                    let (g, pts) = rt::run_alone_after((op[3] % 5) as u32, || m.try_lock());
                     {
                         let mut l = log.lock().unwrap();
                         l.max_try_points = l.max_try_points.max(pts);
@@ -165,6 +165,10 @@ pub fn run_case(case: &Case) -> CaseOut {
                 ));
             }
         }
+        rt::End::Abandoned(w) if w.contains("uninterruptible") => l.viol.push((
+            "try_lock_waited".into(),
+            "try_lock did not return while every other thread was suspended (it waits for the holder)".into(),
+        )),
         rt::End::Abandoned(w) => l.viol.push((
             "lock_never_acquired".into(),
             format!("a blocking lock() did not return under the fair schedule: {}", w),
